@@ -25,6 +25,7 @@ structure St where
 def run (s : St) (args : List String) : St × String :=
   match args with
   | ["ep.reset"] => ({}, "ok")
+  | ["ep.reset", _] => ({}, "ok")     -- what the stream's Close answers does not matter to the handlers (closeAll)
   | ["ep.make", m, r, d, c] =>
     if s.ep.closed then
       -- no slot, the scheduled close runs (the harness lets it settle before it looks)
